@@ -18,7 +18,14 @@ var properties = []Property{
 		LevelText:  "Necessary structural conditions of C01 decided on every run over all paths of the parser/evaluator code: precedence chain, per-level operator table, post-order emission, left-associative looping, operand order, stack-effect agreement, lexeme/type table agreement. A violated condition is a concrete construct that mis-parses or mis-evaluates some expression; silence does not prove the value equation.",
 		LevelNote:  "Trusted: go/types+go/ssa; the precedence table is taken from the property statement. Not decided: numeric results, reference-evaluator equality.",
 	},
-	{ID: "C02"}, {ID: "C03"}, {ID: "C04"}, {ID: "C05"}, {ID: "C06"}, {ID: "C07"}, {ID: "C08"}, {ID: "C09"}, {ID: "C10"},
+	{ID: "C02", Title: "The parser accepts exactly the expression grammar and rejects everything else",
+		Rules:     []string{"GRAM.deaderr", "GRAM.allmatch", "GRAM.consume", "GRAM.leftover", "GRAM.errprop", "GRAM.errcode", "GRAM.unknown", "GRAM.rejects", "GRAM.chain", "GRAM.table"},
+		Technique: "cursor typestate dataflow, error-value def-use, dominator/guard analysis on the parser's SSA",
+		Explanation: "Rejection discipline of the recursive-descent parser decided on all paths: every constructed error reaches a return, every stage error is tested and returned at once, the multi-token matcher cannot be overwritten after a mismatch, every consumed token was type-tested since the previous cursor movement (forward must-dataflow), success requires an exhausted cursor, Unknown classifications are rejected, and each rejection code the grammar needs is still constructed under a guard.",
+		NotDecided: "completeness of acceptance (that every sentence of the grammar is accepted) beyond the operator table; the language equation itself",
+		LevelText:  "Necessary conditions for 'rejects everything else' and 'no token silently skipped', checked over every path of the parser code; each violated obligation names the construct that makes some malformed token sequence pass or be reinterpreted.",
+		LevelNote:  "Trusted: go/types+go/ssa. The typestate treats any type test of the current token as 'seen'. Acceptance completeness is only covered through GRAM.table/chain.",
+	}, {ID: "C03"}, {ID: "C04"}, {ID: "C05"}, {ID: "C06"}, {ID: "C07"}, {ID: "C08"}, {ID: "C09"}, {ID: "C10"},
 	{ID: "C11"}, {ID: "C12"}, {ID: "C13"}, {ID: "C14"}, {ID: "C15"}, {ID: "C16"}, {ID: "C17"}, {ID: "C18"}, {ID: "C19"}, {ID: "C20"},
 }
 
